@@ -318,7 +318,7 @@ func (c *Ctx) checkAtomic(s *State, fc *FuncContract) {
 			if inCS {
 				clocks++
 			}
-			if !inCS && sections > 0 || (!inCS && sections == 0 && c.pathLocksLater(s, ev)) {
+			if fc.MentionsClock && (!inCS && sections > 0 || (!inCS && sections == 0 && c.pathLocksLater(s, ev))) {
 				ok = false
 				why = "clock read outside the critical section at " + ev.Pos
 			}
@@ -348,6 +348,15 @@ func (c *Ctx) pathLocksLater(s *State, at Event) bool {
 func matchEvent(pat, name string) bool {
 	if pat == name {
 		return true
+	}
+	if strings.Contains(pat, "|") {
+		// alternatives: "recv|wg.Wait"
+		for _, alt := range strings.Split(pat, "|") {
+			if alt != "" && matchEvent(alt, name) {
+				return true
+			}
+		}
+		return false
 	}
 	if ok, _ := path.Match(pat, name); ok {
 		return true
@@ -464,8 +473,13 @@ func (c *Ctx) checkTraces(s *State, env *Env, fc *FuncContract, trace []Event, l
 		}
 		cond := True
 		if tr.Cond != nil {
+			nerr := len(env.errs)
 			cond = env.evalBool(tr.Cond)
+			bad := len(env.errs) > nerr
 			c.reportEvalErrors(env, fc, tr.Src)
+			if bad {
+				continue // the rule's condition cannot be evaluated on this path: not decided (no alarm)
+			}
 		}
 		violated := false
 		detail := ""
